@@ -95,13 +95,26 @@ def run(ctx):
                 pkg.linked[nt] = (kind, data_)
                 pkg.rels = [(a, nt if b == t else b, c) for a, b, c in pkg.rels]
             named = rng.random() < 0.5
+            bulky = i in (1, 2)
+            if bulky:
+                # dedicated: parts far larger than any in-memory buffer a library might spill to disk (an embedded picture of 3 MiB and a main part of
+                # 2 MiB), converted from an anonymous stream / a named file with the default converter: still no file may be opened
+                from mammoth.docx.xmlparser import element as X, text as XT
+                pkg = gen_xml.Package()
+                pkg.media["word/media/image1.png"] = bytes(range(256)) * (3 * 4096)
+                pkg.rels = [("rIdBig", "media/image1.png", B.REL + "image")]
+                pic = X("a:graphic", {}, [X("a:graphicData", {}, [X("pic:pic", {}, [X("pic:blipFill", {}, [X("a:blip", {"r:embed": "rIdBig"})])])])])
+                pkg.body = [X("w:p", {}, [X("w:r", {}, [X("w:t", {}, [XT("bulk " * 400000)])]), X("w:r", {}, [X("w:drawing", {}, [X("wp:inline", {}, [pic])])])])]
+                named = (i == 2)
             d = os.path.join(wd.path, "c%d" % i)
             os.makedirs(d)
             conv = rng.choice(["data_uri", "data_uri", "counting", "no_open"])
+            if bulky:
+                conv = "data_uri"
             opts = {"style_map": None, "include_default_style_map": True, "include_embedded_style_map": True,
                     "ignore_empty_paragraphs": True, "id_prefix": None, "conv": conv}
             data, parts = B.build(pkg)
-            doctype = rng.random() < 0.4
+            doctype = rng.random() < 0.4 and not bulky
             if doctype:
                 data = add_doctype(data, canary, "http://127.0.0.1:9/evil.dtd")
                 dist["with_doctype"] += 1
@@ -187,7 +200,7 @@ def run(ctx):
                 else:
                     norm.append((ev, a))
             dist["external_opens"] += len(norm)
-            meta = {"package": gen_xml.pkg_json(pkg), "named": named, "converter": conv, "doctype": doctype, "index": i}
+            meta = {"package": gen_xml.pkg_json(pkg) if not bulky else "dedicated bulky package (3 MiB picture, 2 MiB main part)", "named": named, "converter": conv, "doctype": doctype, "index": i}
             bad = None
             if err is not None:
                 bad = "conversion raised %r instead of returning a warning" % err
@@ -208,7 +221,7 @@ def run(ctx):
                 if exp or doctype:
                     ctx.nontrivial(i)
                     ctx.sample({"named": named, "converter": conv, "doctype": doctype, "external_accesses": norm[:3]})
-            if not doctype and err is None:
+            if not doctype and err is None and not bulky:
                 # correspondence of the result (the model takes what each external target yields as input)
                 raw = mammoth.extract_raw_text(io.BytesIO(data))
                 terms.append(A.case_term(parts, named, linked, opts, res, raw))
@@ -228,7 +241,15 @@ def run(ctx):
 def replay(ctx, rep):
     install()
     r = rep["replay"]
-    pkg = gen_xml.pkg_from_json(r["package"])
+    if isinstance(r["package"], str):
+        from mammoth.docx.xmlparser import element as X, text as XT
+        pkg = gen_xml.Package()
+        pkg.media["word/media/image1.png"] = bytes(range(256)) * (3 * 4096)
+        pkg.rels = [("rIdBig", "media/image1.png", B.REL + "image")]
+        pic = X("a:graphic", {}, [X("a:graphicData", {}, [X("pic:pic", {}, [X("pic:blipFill", {}, [X("a:blip", {"r:embed": "rIdBig"})])])])])
+        pkg.body = [X("w:p", {}, [X("w:r", {}, [X("w:t", {}, [XT("bulk " * 400000)])]), X("w:r", {}, [X("w:drawing", {}, [X("wp:inline", {}, [pic])])])])]
+    else:
+        pkg = gen_xml.pkg_from_json(r["package"])
     data, _ = B.build(pkg)
     del EVENTS[:]
     RECORDING[0] = True
